@@ -1,12 +1,12 @@
 #!/bin/sh
 # run_all.sh [tier] [ids...] : run every check of the tier on /repo, sequentially; summary in /tmp/run_all.<tier>.txt
-cd /verif
+cd "$(dirname "$0")/.."
 TIER=${1:-quick}; shift
 IDS=${@:-C01 C02 C03 C04 C05 C06 C07 C08 C09 C10 C11 C12 C13 C14 C15 C16 C17 C18 C19 C20}
 OUT=/tmp/run_all.$TIER.txt; : > $OUT
 for id in $IDS; do
   s=$(date +%s)
-  ./check $id --tier $TIER > /tmp/run_all.$TIER.$id.log 2>&1; code=$?
+  DVERIF_EVIDENCE_DIR=${RUNALL_EVID:-/verif/evidence} ./check $id --tier $TIER > /tmp/run_all.$TIER.$id.log 2>&1; code=$?
   e=$(date +%s)
   echo "$id exit=$code wall=$((e-s))s $(grep -c '^VIOLATION' /tmp/run_all.$TIER.$id.log) violations $(grep -c '^KNOWN-FINDING' /tmp/run_all.$TIER.$id.log) known | $(tail -1 /tmp/run_all.$TIER.$id.log | cut -c1-200)" >> $OUT
 done
